@@ -777,8 +777,39 @@ void ObjsEngine::op_chol(const Step& st)
   // new SPD object in slot j, then factorisation of a COPY and solve, checked against the definition
   int j = (int)(st.arg(0) % NSLOT); static const int TT[] = {T_SYM, T_COV, T_BAND};
   int t = TT[st.arg(1) % 3]; int n = 1 + (int)(st.arg(2) % MAXD); int b = (int)(st.arg(3) % MAXD);
-  Slot& s = S[j]; make(s, t, n, n, b);
   Rng g((uint64_t)st.arg(4) * 77 + 5);
+  if (st.arg(4) % 5 == 0) {
+    // one factorisation in five gets an EXACTLY singular positive semidefinite matrix of small integers, C = G*G' with
+    // G of n x r, r < n: every entry and the rank deficiency are exact, so "positive definite" is a wrong answer.  The
+    // refusal is the documented one: SymMat reports a nullity, CovMat and BandMat raise NonPositiveDefinite.
+    // Only where the refusal is PROVABLE for the tolerances the library documents (a threshold test cannot refuse every
+    // singular matrix: rounding noise in the last pivot grows with 1/(an earlier small pivot)).  Rank one: the second
+    // pivot c22 - (c12/c11)*c12 is pure rounding noise of at most eps*c22, below CovMat's N*eps*max(diag) and far below
+    // the 1e-8*diag of SymMat/BandMat.  Rank two is added for SymMat/BandMat up to 3 x 3, where integer minors bound
+    // the noise by about 1e-10.
+    n = 2 + (int)(st.arg(2) % 3); int r = 1 + (int)(st.arg(3) % (n - 1));
+    if (t == T_COV || n > 3) r = 1;
+    Slot& z = S[j]; make(z, t, n, n, n - 1);
+    std::vector<int> G((size_t)n * r); { int lim = r == 1 && g.chance(2, 3) ? 999 : 5; for (auto& v : G) v = (int)g.range(-lim, lim); }   // (products stay exact integers)
+    for (int i = 1; i <= n; i++) for (int k = 1; k <= n; k++) { int sum = 0; for (int q = 0; q < r; q++) sum += G[(size_t)(i - 1) * r + q] * G[(size_t)(k - 1) * r + q]; z.m.at(i, k) = sum; }
+    for (int i = 1; i <= n; i++) for (int k = i; k <= n; k++) rset(z, i, k, z.m.at(i, k));
+    check_slot(j, "singular-fill");
+    ST->state("triples", fmt("cholDec/%s/exactly-singular", TN[t]));
+    bool refused = false;
+    try {
+      if (t == T_SYM) { RSym f(*z.sym); f.cholDec(); refused = f.nullity() != 0; }
+      else if (t == T_COV) { RCov f(*z.cov); f.cholDec(); }
+      else { RBand f(*z.band); f.cholDec(); }
+    } catch (const matvec&) { refused = true; }
+    if (!refused) {
+      std::string rows; for (int i = 1; i <= n; i++) { rows += i > 1 ? "; " : ""; for (int k = 1; k <= n; k++) rows += fmt("%s%d", k > 1 ? " " : "", (int)z.m.at(i, k)); }
+      throw Fail{fmt("C15:algebra:%s::cholDec", TN[t]), fmt("an exactly singular %d x %d matrix of rank at most %d (small integers) is accepted as positive definite: [%s]", n, n, r, rows.c_str())};
+    }
+    ST->add("chol.singular_refused");
+    L->line("  chol %s n=%d singular r=%d refused", TN[t], n, r);
+    return;
+  }
+  Slot& s = S[j]; make(s, t, n, n, b);
   spd_values(s.m, g);
   for (int i = 1; i <= n; i++) for (int k = i; k <= n; k++) if (s.m.inband(i, k)) rset(s, i, k, s.m.at(i, k));
   check_slot(j, "spd-fill");
